@@ -2,7 +2,7 @@
    theorems of Property.v, by vm_compute), the necessity of the side condition
    of c10_embed_stable_regex, and refutations of the pre-repair behaviour. *)
 From Coq Require Import String ZArith List Bool Lia.
-From Verif Require Import C10.Regex C10.RegexProofs C10.Model C10.Proofs C10.LiveProofs.
+From Verif Require Import C10.Regex C10.RegexProofs C10.Model C10.Proofs C10.LiveProofs C10.HandlerProofs.
 Import ListNotations.
 Open Scope Z_scope.
 
@@ -352,3 +352,57 @@ Example ex_decorations :
   sig_matches py_cc s_jail [74;65;73;76;66;82;69;65;8490] = true /\
   lower py_cc [65322; 8490; 201] = [65354; 107; 233].
 Proof. vm_compute. repeat split; reflexivity. Qed.
+
+(* ---- callbacks that raise (c10_raising_handler_keeps_block) ------------------
+   "secret" learned (DANGEROUS), "my secret" blocked by the scan while the
+   on_threat handler raises: the caller gets the exception, the decision is
+   audited and remembered; the rule is forgotten and the threshold raised to
+   CRITICAL (the handler still raising, then repaired): "my secret" is refused
+   from the replay memory, although a membrane with these relaxed rules and no
+   memory would let it pass. *)
+Definition always_raises : handler := fun _ => true.
+Definition st_learned := fst (mrun cfg0 st0 [OLearn s_learn]).
+Definition relax_h : list (lop * handler) :=
+  [(LOp (OForget (s_key s_learn)), always_raises); (LOp (OFilter x_hello), always_raises);
+   (LOp (OSetThreshold 3), no_handler)].
+Example ex_handler_raises :
+  snd (mfilter_h always_raises cfg0 st_learned x_secret) = FHandlerRaised (snd (mfilter cfg0 st_learned x_secret)) /\
+  scan_blocked (snd (mfilter cfg0 st_learned x_secret)) = true /\
+  (let st2 := fst (mfilter_h always_raises cfg0 st_learned x_secret) in
+   let cfg3 := fst (fst (hrun cfg0 st2 relax_h)) in
+   let st3 := snd (fst (hrun cfg0 st2 relax_h)) in
+   length (m_audit st2) = 1%nat /\ m_blocked st2 = [x_secret] /\
+   m_learned st3 = [] /\ m_threshold st3 = 3 /\
+   map (fun e => fout_raised (snd e)) (snd (hrun cfg0 st2 relax_h)) = [false] /\
+   r_allowed (fout_result (snd (mfilter_h no_handler cfg3 st3 x_secret))) = false /\
+   r_kind (fout_result (snd (mfilter_h no_handler cfg3 st3 x_secret))) = Replay) /\
+  r_allowed (snd (mfilter cfg0 (fst (mrun cfg0 st0 [OSetThreshold 3])) x_secret)) = true.
+Proof. vm_compute. repeat split. Qed.
+
+(* on_inflammation raising: \bfoo\b (severity 5) -> ACUTE; the exception leaves check()
+   after the inflammation state took level 4 and before the block was counted *)
+Example ex_inflammation_handler_raises :
+  snd (icheck_h (fun _ => true) py_cc vals0 ist0 x_foo) = CHandlerRaised 4 /\
+  i_level (fst (icheck_h (fun _ => true) py_cc vals0 ist0 x_foo)) = 4 /\
+  i_checks (fst (icheck_h (fun _ => true) py_cc vals0 ist0 x_foo)) = 1 /\
+  i_blocks (fst (icheck_h (fun _ => true) py_cc vals0 ist0 x_foo)) = 0 /\
+  (exists r, snd (icheck_h (fun _ => true) py_cc vals0 ist0 x_hello) = CPlain (IOk r) /\ ir_allowed r = true) /\
+  (exists r, snd (icheck py_cc vals0 (fst (icheck_h (fun _ => true) py_cc vals0 ist0 x_foo)) x_foo) = IOk r /\
+             ir_allowed r = false).
+Proof. vm_compute. repeat split; eauto. Qed.
+
+(* ---- earlier inputs leave no trace (c10_scan_history_free) -------------------
+   a stream of benign inputs of the same length as the attack, then the attack *)
+Definition x_15a := [104;101;108;108;111;32;116;104;101;114;101;32;97;108;108].   (* "hello there all", 15 code points *)
+Definition stream15 := [OFilter x_15a; OTick 1; OFilter x_15a; OFilter x_hello; OSetThreshold 3; OFilter x_15a].
+Example ex_history_free :
+  length x_15a = length x_attack /\ forallb keeps_rules stream15 = true /\
+  (let st := fst (mrun cfg0 st0 stream15) in
+   r_kind (snd (mfilter cfg0 st x_attack)) = Scanned /\
+   r_matched (snd (mfilter cfg0 st x_attack)) = [s_ignore] /\ m_threshold st <= s_level s_ignore /\
+   r_allowed (snd (mfilter cfg0 st x_attack)) = false) /\
+  (let ops := [(vals0, ICheck x_hello); (vals0, ITick 5); (vals0, ICheck x_hello); (vals0, ISetThreshold 5)] in
+   forallb (fun p => keeps_patterns (snd p)) ops = true /\
+   exists r, snd (icheck py_cc vals0 (irun py_cc ist0 ops) x_foo) = IOk r /\
+             map s_id (ir_matched r) = [0] /\ ir_allowed r = false).
+Proof. vm_compute. repeat split; try discriminate; eauto. Qed.
